@@ -5,7 +5,7 @@
 D="$1"; shift
 W=$(mktemp -d /tmp/mutrun-XXXX)
 export GOFLAGS=-mod=mod GOPROXY=off GOSUMDB=off GOTOOLCHAIN=local
-git -C /repo worktree add -f "$W" HEAD >/dev/null 2>&1
+git -C /repo worktree add -f --detach "$W" "${BASE:-HEAD}" >/dev/null 2>&1
 if ! git -C "$W" apply "$D/patch.diff" 2>/tmp/apply.err; then echo "PATCH DOES NOT APPLY: $(head -2 /tmp/apply.err)"; git -C /repo worktree remove --force "$W"; exit 2; fi
 SUITE=$(cd "$W" && go test -vet=off -count=1 ./... 2>&1 | grep -c "^FAIL\|^---")
 echo "existing suite failures: $SUITE"
